@@ -39,6 +39,7 @@ def tasks(tier, seed):
         for sk, gk in F.t3_shards(0, 2, F.T3_KINDS): t.append(('t3', 3, sk, gk, tier, seed))
         for sk, gk in F.t3_shards(1, 2, F.T3_KINDS_QUICK): t.append(('t3', 2, sk, gk, tier, seed))
         for sk, gk in F.t3_shards(2, 1, F.T3_KINDS_QUICK): t.append(('t3', 2, sk, gk, tier, seed))
+        t = F.slice_t3_tasks(t, 1500)
     return t
 
 
